@@ -16,6 +16,8 @@ EXTENDS Naturals, Sequences, TLC
 CONSTANTS TB,                 \* limb base of the timers
           N,                  \* largest cycle budget
           FixPending,         \* TRUE: the repaired loop (no skip while an interrupt signal is latched)
+          GuardSeesVectored,  \* TRUE: the guard of the fast-forward looks at the vectored signal as well (as coded); FALSE: a
+                              \* guard that only looks at the line signals (a mutation kept as a negative control)
           FixSkipZero,        \* TRUE: the repaired Timer::Skip(0)
           Family,             \* "timers": all timer configurations, audio port off; "audio": the audio port in every state
           FixAudioSkip        \* TRUE: the repaired Btdmp::Skip (phase overrun / ticks = 0).  (With FALSE the invariant holds as
@@ -34,10 +36,17 @@ Exec(m) ==
       [] m.pc = "L2" -> [m EXCEPT !.pc = "L"]                                         \* brr -2
       [] m.pc = "H"  -> [m EXCEPT !.c1 = (@ + 1) % 4, !.pc = "H2"]
       [] m.pc = "H2" -> [m EXCEPT !.pc = m.ret, !.ie = 1]                            \* reti
-Latch(m) == IF m.lat = 1 THEN [m EXCEPT !.ip = 1, !.lat = 0] ELSE m
+\* two inputs of the core: the interrupt line (lat -> ip, mask im) and the vectored input (vlat -> ipv, mask imv); the line wins
+Latch(m) == LET m1 == IF m.lat = 1 THEN [m EXCEPT !.ip = 1, !.lat = 0] ELSE m
+            IN  IF m1.vlat = 1 THEN [m1 EXCEPT !.ipv = 1, !.vlat = 0] ELSE m1
 Enter(m) == IF m.ie = 1 /\ m.im = 1 /\ m.ip = 1
-            THEN [m EXCEPT !.ip = 0, !.ie = 0, !.ret = m.pc, !.pc = "H", !.idle = FALSE] ELSE m
-ApplyT(m, i, r) == [m EXCEPT !.tm[i] = r.t, !.lat = IF r.irq > 0 THEN 1 ELSE @, !.irqs = (@ + r.irq) % 8]
+            THEN [m EXCEPT !.ip = 0, !.ie = 0, !.ret = m.pc, !.pc = "H", !.idle = FALSE]
+            ELSE IF m.ie = 1 /\ m.imv = 1 /\ m.ipv = 1
+            THEN [m EXCEPT !.ipv = 0, !.ie = 0, !.ret = m.pc, !.pc = "H", !.idle = FALSE]
+            ELSE m
+\* timer 1 is routed to the line or (m.vec = 1) to the vectored input; timer 2 and the audio port always to the line
+ApplyT(m, i, r) == [m EXCEPT !.tm[i] = r.t, !.lat = IF r.irq > 0 /\ ~ (i = 1 /\ m.vec = 1) THEN 1 ELSE @,
+                             !.vlat = IF r.irq > 0 /\ i = 1 /\ m.vec = 1 THEN 1 ELSE @, !.irqs = (@ + r.irq) % 8]
 \* the audio port's callbacks: interrupts feed the line, frames are remembered (observation)
 RECURSIVE ApplyA(_, _, _)
 ApplyA(m, evs, j) == IF j > Len(evs) THEN m
@@ -67,7 +76,7 @@ SkipAll(m, maxk) ==
 RECURSIVE RunFrom(_, _, _)
 RunFrom(m, i, cycles) ==
     IF i >= cycles THEN m
-    ELSE IF m.idle /\ (~ FixPending \/ m.lat = 0)
+    ELSE IF m.idle /\ (~ FixPending \/ (m.lat = 0 /\ (~ GuardSeesVectored \/ m.vlat = 0)))
          THEN LET sk == SkipAll(m, cycles - i - 1)
                   i1 == i + sk.k
               IN  IF i1 < cycles - 1
@@ -99,12 +108,15 @@ AudioStates == {[q |-> q, tm |-> t, pd |-> p, en |-> e, em |-> IF q = <<>> THEN 
 AudioOff == [A!ResetState EXCEPT !.pd = 4]
 TimerStatesA == {[c |-> c, s |-> <<0, 1>>, m |-> md, p |-> 0, u |-> 1, mi |-> c, sc |-> 0] : c \in {<<0, 0>>, <<0, 1>>, <<1, 0>>}, md \in {0, 1, 2}}
 TimerStopped == [c |-> <<0, 0>>, s |-> <<0, 0>>, m |-> 0, p |-> 0, u |-> 0, mi |-> <<0, 0>>, sc |-> 0]
-Mk(pr, ie, im, lat, t1, t2, b) ==
-    [pc |-> "L", prog |-> pr, idle |-> FALSE, ie |-> ie, im |-> im, ip |-> 0, lat |-> lat, ret |-> "L",
+MkV(pr, ie, im, lat, t1, t2, b, vec) ==
+    [pc |-> "L", prog |-> pr, idle |-> FALSE, ie |-> ie, im |-> im, imv |-> im, ip |-> 0, ipv |-> 0,
+     lat |-> IF vec = 0 THEN lat ELSE 0, vlat |-> IF vec = 1 THEN lat ELSE 0, vec |-> vec, ret |-> "L",
      c0 |-> 0, c1 |-> 0, tm |-> <<t1, t2>>, irqs |-> 0, bt |-> b, fr |-> <<>>, bad |-> FALSE]
+\* im stands for both masks, lat for a signal on the routed input of timer 1
+Mk(pr, ie, im, lat, t1, t2, b) == MkV(pr, ie, im, lat, t1, t2, b, 0)
 Starts == IF Family = "timers"
-          THEN {Mk(pr, ie, im, lat, t1, t2, AudioOff) :
-                  pr \in {"idle", "count"}, ie \in 0 .. 1, im \in 0 .. 1, lat \in 0 .. 1, t1 \in TimerStates1, t2 \in TimerStates2}
+          THEN {MkV(pr, ie, im, lat, t1, t2, AudioOff, vec) :
+                  pr \in {"idle", "count"}, ie \in 0 .. 1, im \in 0 .. 1, lat \in 0 .. 1, t1 \in TimerStates1, t2 \in TimerStates2, vec \in 0 .. 1}
           ELSE {Mk(pr, ie, im, lat, t1, TimerStopped, b) :
                   pr \in {"idle", "count"}, ie \in 0 .. 1, im \in 0 .. 1, lat \in 0 .. 1, t1 \in TimerStatesA, b \in AudioStates}
 
@@ -112,7 +124,7 @@ VARIABLE vM
 \* the start configurations are fanned out from a few seed states so that all workers share the work
 Seeds == {[m EXCEPT !.pc = "seed"] : m \in {x \in Starts : x.tm[1] = (CHOOSE y \in Starts : TRUE).tm[1]}}
 Init == vM \in Seeds
-Next == vM.pc = "seed" /\ vM' \in {x \in Starts : x.prog = vM.prog /\ x.ie = vM.ie /\ x.im = vM.im /\ x.lat = vM.lat /\ x.tm[2] = vM.tm[2] /\ x.bt = vM.bt}
+Next == vM.pc = "seed" /\ vM' \in {x \in Starts : x.prog = vM.prog /\ x.ie = vM.ie /\ x.im = vM.im /\ x.lat = vM.lat /\ x.vlat = vM.vlat /\ x.vec = vM.vec /\ x.tm[2] = vM.tm[2] /\ x.bt = vM.bt}
 
 SlicingInvariant ==
     vM.pc # "seed" =>
